@@ -22,8 +22,10 @@ PROPS["C01"] = {
     "level_note": "partial: clause (b) holds only outside finding F3; " + _SESS_NOTE,
 }
 PROPS["C03"] = {
-    "streams": ["sess-deliver", "sess-base"], "audit": "C03.lean", "shrink": True, "clauses": ["C03"],
-    "compare_parts": {"sess-deliver": ["deliver", "failstop", "mut="], "sess-base": ["deliver", "failstop", "mut="]},
+    "streams": ["sess-deliver", "sess-base", "c08"], "audit": "C03.lean", "shrink": True,
+    # the after-rollback filter clause of C03 is exercised by the rollback stream: its delivered-events field and its two delivery clauses
+    "clauses": ["C03", "C08.no-replay", "C08.no-skip"],
+    "compare_parts": {"sess-deliver": ["deliver", "failstop", "mut=", "ctx"], "sess-base": ["deliver", "failstop", "mut=", "ctx"], "c08": {"fields": [0, 2]}},
     "rule": _SESS_RULE, "assumptions": _SESS_ASSUME + ["the server trace is well-formed (each document event inside the last announced marker); the ill-formed case is C06's fail-stop",
                                                        "atomicity of 'check closed + deliver' inside the observer"],
     "design_ref": "DESIGN.md §7 C03",
@@ -47,7 +49,7 @@ PROPS["C05"] = {
     "level_text": "Kernel-checked (Props/C05): a save with the flag down performs no store call; a failed or partially failed save leaves offsets, every dirty map and the flag untouched and the next quiescent successful save stores every dirty vBucket's current position; a quiescent successful save stores exactly the dirty positions and lowers the flag; the full statement is refuted twice (F1: dirty but flag down; F2: settle between dump and unmark / overlapping savers) and proved under the complement of the two decidable patterns. The monitor evaluates the durable-after-save clause on every real trace and classifies F1/F2.",
     "level_note": "partial: findings F1 and F2; " + _SESS_NOTE,
 }
-_P_C06 = ["deliver", "track", "written", "openreq", "savecall", "failstop", "pos"]
+_P_C06 = ["deliver", "track", "written", "openreq", "savecall", "failstop", "pos", "ctx"]
 PROPS["C06"] = {
     "streams": ["sess-deliver", "sess-save"], "audit": "C06.lean", "shrink": True, "clauses": ["C06"],
     "compare_parts": {"sess-deliver": _P_C06, "sess-save": _P_C06},
